@@ -69,8 +69,57 @@ OWN = [
 ]
 
 
+# symbolic expressions over the grammar's operators: three leaves, two operators, brackets none/left/right, unary minus on
+# each leaf and before the bracketed group; leaves are parameters / registers and concrete coefficients; an exponent is a
+# literal.  Each must come back as a mathematically equal expression (the printer has to re-create brackets and signs).
+SYMX_LEAVES = [("a", "b", "2"), ("a", "2", "b"), ("2", "a", "b"), ("a", "b", "a"), ("a", "h", "b"), ("a", "b", "c"), ("a", "3", "2")]
+SYMX_OPS = ["+", "-", "*", "/", "**"]
+
+
+def symx_specs():
+    out = []
+    for kind in ("param", "regref"):
+        for L in SYMX_LEAVES:
+            for o1 in SYMX_OPS:
+                for o2 in SYMX_OPS:
+                    for br in ("none", "left", "right"):
+                        if o1 == "**" and (L[1] not in "23h" or br == "right"):
+                            continue
+                        if o2 == "**" and L[2] not in "23h":
+                            continue
+                        if not any(x in "abc" for x in L):
+                            continue
+                        for um in range(16):
+                            if (um & 8) and br == "none":
+                                continue
+                            if (o1 == "**" and L[0] in "23" and um & 2) or (o2 == "**" and L[1] in "23" and um & 4 and br != "left"):
+                                continue        # an integer literal to a negative integer power is refused by the loader (C03's domain)
+                            if kind == "regref" and "c" in L:
+                                continue
+                            out.append((kind, L, (o1, o2), br, um))
+    return out
+
+
+def symx_text(spec):
+    kind, L, (o1, o2), br, um = spec
+    names = {"a": "{a}", "b": "{b}", "c": "{c}"} if kind == "param" else {"a": "q0", "b": "q1"}
+    names.update({"2": "2", "3": "3", "h": "0.5"})
+    x, y, z = [("-" if (um >> i) & 1 else "") + names[l] for i, l in enumerate(L)]
+    g = "-" if um & 8 else ""
+    if br == "left":
+        e = "%s(%s %s %s) %s %s" % (g, x, o1, y, o2, z)
+    elif br == "right":
+        e = "%s %s %s(%s %s %s)" % (x, o1, g, y, o2, z)
+    else:
+        e = "%s %s %s %s %s" % (x, o1, y, o2, z)
+    hdr = ["name sx", "version 1.0", ""] + (["MeasureX | 0", "MeasureP | 1"] if kind == "regref" else [])
+    return "\n".join(hdr + ["Rgate(%s) | 2" % e, "Dgate(0.25, k=%s) | 3" % e]) + "\n"
+
+
 def gen(spec, lv):
     fam = spec[0]
+    if fam == "symx":
+        return {"text": symx_text(spec[1]), "pre": []}
     if fam == "c02":
         return c02.gen(spec[1], lv)
     if fam == "c05":
@@ -97,6 +146,8 @@ def gen_specs(tier, seed):
     specs += [("c05", s) for s in s5[::(3 if tier == "quick" else 1)]]
     s6 = [s for s in c06.gen_specs("quick", seed) if s[5] != "use" and s[3] != "func"]
     specs += [("c06", s) for s in s6[::(6 if tier == "quick" else 1)]]
+    sx = symx_specs()
+    specs += [("symx", s) for s in (sx[(seed % 5)::5] if tier == "quick" else sx)]
     return specs
 
 
